@@ -309,3 +309,23 @@ DECIDES += (' C25-RT: the text ExpressionWriter writes for every operator, atom 
 NOT_DECIDED = ('annotation strings (AnnotationNode.string) and the `c` format of typed arguments (not Python syntax by design), cpdef / fused signatures (visit_CFuncDefNode), comprehension and '
                'lambda printing, wrapper / generator body qualified names (is_wrapper paths), __doc__ of properties, the run-time behaviour of the CyFunction type beyond the table agreements.')
 MUTATIONS = 'see /verif/mutants/C25/*/meta.json (44 brainstormed mutants: 36 breaking - all reported, 8 behaviour-preserving - all silent)'
+
+
+# ---------------------------------------------------------------------------------------------------------------------------------
+# sixth strengthening round (session I2): sa/rules/s4C25.py
+_run2 = run
+
+
+def run(ctx):
+    from ..rules import s4C25
+    return _run2(ctx) + [s4C25.rule_cover(ctx)]
+
+TECHNIQUE += ('; writer / sizer agreement with path conditions: both functions of the code-object description interpreted by the checker\'s evaluator once per truth assignment of the '
+              'def-node flags they consult (linear forms over non-negative node quantities, running maxima as sets of dominated forms)')
+DECIDES += (' C25-COVER: for every combination of the def-node flags tested by CodeObjectNode.generate_codeobj or GlobalState.generate_codeobject_constants, each count stored in the '
+            'description struct is a constant that fits or is dominated by a quantity accumulated (in that case) into the running maximum that sizes its bit-field; the sizing loop runs '
+            'over the collection the writer is called for, is not left early, every maximum dominates its previous value, the width is at least the bit length of the maximum, and every '
+            'CO_* flag the writer can set fits the flags mask (values of the checker\'s inspect module).')
+ASSUMPTIONS = list(globals().get('ASSUMPTIONS', [])) + [
+    'C25-COVER: node quantities (len(args), num_*_args, len(varnames), line) are non-negative; arguments added to a generator expression after construction are plain positional '
+    '(its keyword-only / positional-only counts stay 0: shown from the construction sites with is_generator_expression=True passing args=[] and DefNode.__init__ counting over self.args)']
